@@ -59,6 +59,7 @@ Definition entries : list (bs * (list bs -> bs)) := [
   (B "ob_script", fun a => OutBuf.ob_script a);
   (B "cookie_parse_script", fun a => Cookie.cookie_parse_script a);
   (B "resp_head", fun a => RespHead.resp_head a);
+  (B "req_close", fun a => RespHead.req_close_of a);
   (B "uri_parse_script", fun a => Uri.uri_parse_script a);
   (B "prefetch_script", fun a => Prefetch.prefetch_script a);
   (B "pool_script", fun a => Pool.pool_script a);
